@@ -118,6 +118,7 @@ TWINS = {0: [0.0, False, Decimal("0")], 1: [1.0, True, Decimal("1")], 2: [2.0, D
          3: [3.0, Decimal("3")], 10: [10.0, Decimal("10")]}
 
 
+HASH_TWINS = [(-1, -2), (-1.0, -2), (0, 2 ** 61 - 1), ("", 0), (1, 2 ** 61), ("", 0.0)]
 SEQ_TWINS = [([1, 2], (1, 2)), ([], ()), ([None], (None,)), (["a", 1], ("a", 1)), ([[1]], ((1,),)), ([1, [2, 3]], (1, (2, 3)))]
 # same prefix, then values that only the ordering (not native comparison) can tell apart
 SEQ_NEAR = [((1, b"a"), (1, "a")), ((1, None), (1, 0)), (("a", b""), ("a", "")), ((None, 1), (None, "1")), ((1, (2,)), (1, 2))]
@@ -137,6 +138,10 @@ def twinned_pool(draw, elements=keyish, min_size=2, max_size=5, seq_twins=False)
             p.append(draw(st.sampled_from(TWINS[base])))
     if draw(st.integers(0, 5)) == 0:
         p.extend(draw(st.sampled_from(NEAR)))
+    if draw(st.integers(0, 5)) == 0:
+        # two DIFFERENT values with the same hash (CPython: hash(-1) == hash(-2), hash('') == hash(0) == hash(2**61 - 1)):
+        # whatever counts or looks rows up by hash alone mixes them up
+        p.extend(draw(st.sampled_from(HASH_TWINS)))
     if seq_twins and draw(st.integers(0, 3)) == 0:
         # the same sequence once as a list and once as a tuple (they tie under the ordering), and / or two sequences that
         # differ only behind a common prefix, in a position where native comparison gives up
